@@ -2,7 +2,8 @@
    Models: coq/model/M_Ledger.v (every operation of the bridge/erc20 ledger), coq/model/M_Erc20.v (pair registry;
    one EVM transaction over the two-level token store).  Tied to /repo by harness/c04 (VERIF_PROP=C08) and harness/c08. *)
 From Coq Require Import ZArith List Bool.
-From FxV Require Import model.M_Ledger model.M_Erc20 proofs.P_Ledger proofs.P_LedgerC04 proofs.P_LedgerC08 proofs.P_Erc20.
+From FxV Require Import model.M_Ledger model.M_LedgerGenesis model.M_Erc20 proofs.P_Ledger proofs.P_LedgerC04 proofs.P_LedgerC08
+  proofs.P_LedgerDenom proofs.P_LedgerGenesis proofs.P_Erc20 gen.Gen_C08Facts.
 Import ListNotations.
 Open Scope Z_scope.
 
@@ -25,6 +26,66 @@ Theorem C08_convert_erc20_exact : forall tk a r x b b',
 Proof. exact convert_erc20_exact. Qed.
 Print Assumptions C08_convert_erc20_exact.
 
+(* MsgConvertDenom (accepted: the coin is one of the token's denominations and the target differs from it) moves exactly x:
+   the sender's source denomination -x, the receiver's target denomination +x (sender and receiver may be one account), no
+   other account's coin changes except the erc20 module's pools, no ERC-20 cell changes at all; x of the source denomination
+   leaves circulation (locked in the erc20 module or burned) and x of the target denomination enters it (released or minted);
+   every other denomination's supply and pool are untouched *)
+Theorem C08_convert_denom_exact : forall tk a r src tg x b b',
+  runB (msg_convert_denom tk a r src tg x) b = Some b' -> is_module a = false -> is_module r = false ->
+  has_rep tk src = true -> converted_rep tk src tg <> src ->
+  let S := denom_rep tk src in let T := denom_rep tk (converted_rep tk src tg) in
+  S <> T /\
+  cget (CB a S) b' = cget (CB a S) b - x /\
+  cget (CB r T) b' = cget (CB r T) b + x /\
+  (forall u d, u <> A_ERC20 -> (u =? a) && (d =? S) = false -> (u =? r) && (d =? T) = false -> cget (CB u d) b' = cget (CB u d) b) /\
+  (forall j u, cget (CE j u) b' = cget (CE j u) b) /\ (forall j, cget (CT j) b' = cget (CT j) b) /\
+  circulating S b' = circulating S b - x /\ circulating T b' = circulating T b + x /\
+  (forall d, d <> S -> d <> T -> cget (CS d) b' = cget (CS d) b /\ cget (CB A_ERC20 d) b' = cget (CB A_ERC20 d) b).
+Proof. exact convert_denom_exact. Qed.
+Print Assumptions C08_convert_denom_exact.
+
+(* FROM GENESIS, with registration as an operation (model/M_LedgerGenesis.v: GRegister t = RegisterCoin / RegisterERC20 of a
+   configuration token; the native coin's pair is registered by InitGenesis; an operation naming an unregistered token is
+   refused).  at_genesis: nothing of any pair exists yet (no ERC-20 of a module-owned pair or of FX issued, nothing escrowed;
+   of an externally-owned token's pre-existing ERC-20 the erc20 module holds nothing and no coin is minted).  Then after EVERY
+   history of registrations and operations the books are balanced as EQUALITIES: *)
+Theorem C08_books_from_genesis : forall U g s0 gops,
+  users U -> at_genesis U g s0 -> Forall (gop_ok U) gops ->
+  let s := g_st (gsteps g (genesis s0) gops) in
+  (forall i, erc_sum U i s = erc_total i s) /\
+  (forall i tk, find_tok g i = Some tk -> t_kind tk = KMod -> i <> 0 -> escrow_mod i s = erc_total i s) /\
+  (forall tk, find_tok g 0 = Some tk -> t_kind tk = KFX -> escrow_wfx s = erc_total 0 s) /\
+  (forall i tk, find_tok g i = Some tk -> t_kind tk = KExt -> t_ibc tk = false -> i <> 0 ->
+     erc_escrow i s = coin_supply i s - escrow_mod i s).
+Proof. exact books_from_genesis. Qed.
+Print Assumptions C08_books_from_genesis.
+
+Theorem C08_unregistered_refused : forall g gs o t,
+  In t (op_tokens o) -> memZ t (g_reg gs) = false -> gstep g gs (GOp o) = (gs, false).
+Proof. exact unregistered_refused. Qed.
+Print Assumptions C08_unregistered_refused.
+
+Theorem C08_register_spec : forall g gs t,
+  g_st (fst (gstep g gs (GRegister t))) = g_st gs /\
+  (snd (gstep g gs (GRegister t)) = true <-> (find_tok g t <> None /\ memZ t (g_reg gs) = false)) /\
+  (snd (gstep g gs (GRegister t)) = true -> g_reg (fst (gstep g gs (GRegister t))) = t :: g_reg gs).
+Proof. exact register_spec. Qed.
+Print Assumptions C08_register_spec.
+
+(* at_genesis is satisfiable and the theorem not vacuous: users hold FX and an externally-owned ERC-20 at genesis; operations
+   before the registration of their token are refused, a second registration is refused; then deposits and conversions of all
+   three kinds are accepted and the four equations hold with non-zero values *)
+Theorem C08_genesis_nonvacuous :
+  users ex_U /\ at_genesis ex_U ex_cfg gx_s0 /\ Forall (gop_ok ex_U) gx_hist /\
+  gaccepted ex_cfg (genesis gx_s0) gx_hist = [false; true; false; true; true; false; true; true; true; true; true] /\
+  let s := g_st (gsteps ex_cfg (genesis gx_s0) gx_hist) in
+  (escrow_mod 1 s, erc_total 1 s) = (250, 250) /\ (escrow_wfx s, erc_total 0 s) = (700, 700) /\
+  (erc_escrow 2 s, coin_supply 2 s, escrow_mod 2 s) = (200, 200, 0) /\ (erc_sum ex_U 2 s, erc_total 2 s) = (1000, 1000).
+Proof. exact genesis_nonvacuous. Qed.
+Print Assumptions C08_genesis_nonvacuous.
+
+(* the same statements for an ARBITRARY start state, as preserved differences: *)
 (* for EVERY operation list of the ledger model (conversions, bridge operations, precompile entry points, refunds): *)
 (* module-owned pair: coins escrowed by the erc20 module - ERC-20 totalSupply never changes (both 0 at registration) *)
 Theorem C08_module_owned_backed : forall U g i tkI s0 ops,
@@ -68,6 +129,24 @@ Print Assumptions C08_sum_balances.
 Theorem C08_indexes : forall ops, forallb no_export ops = true -> forall s, idx_ok s -> idx_ok (isteps s ops).
 Proof. exact indexes_consistent. Qed.
 Print Assumptions C08_indexes.
+
+(* THIS TREE: the probed fact is a generated constant (coq/gen/Gen_C08Facts.v, regenerated from the tree under test on every
+   run by `harness/c08 -facts`), pinned here: a tree whose InitGenesis does not rebuild the alias index breaks this obligation
+   (and the monitor `C08:export-import:alias-index-lost` gives the replay) *)
+Theorem C08_tree_rebuilds_alias_index : gen_alias_index_rebuilt = true.
+Proof. reflexivity. Qed.
+Print Assumptions C08_tree_rebuilds_alias_index.
+
+(* every history as this tree executes it — each genesis export + import in it being the tree's own variant — keeps all four
+   indexes and the bank metadata consistent; no hypothesis on the history *)
+Definition tree_op (o : iop) : iop := match o with IExportImport _ => IExportImport gen_alias_index_rebuilt | _ => o end.
+Theorem C08_indexes_on_tree : forall ops s, idx_ok s -> idx_ok (isteps s (map tree_op ops)).
+Proof.
+  intros ops s Hs. apply indexes_consistent; [|exact Hs].
+  induction ops as [|o ops IH]; [reflexivity|]. cbn [map forallb]. rewrite IH. rewrite andb_true_r.
+  destruct o; cbn [tree_op]; try reflexivity; rewrite C08_tree_rebuilds_alias_index; reflexivity.
+Qed.
+Print Assumptions C08_indexes_on_tree.
 
 (* ... and over EVERY history, genesis export + import included, the pair store, the denom index and the contract index
    describe the same set of pairs *)
